@@ -32,4 +32,47 @@ HetInvariant2 == \A a \in Printable, c \in {47, 92, 65, 97, 122} : \A bits \in {
     /\ HetHash(<<a, 47>>, bits) = HetHash(<<a, 92>>, bits)
 ASSUME FoldInvariant2
 ASSUME HetInvariant2
+(* ---- round 4: widths, table bodies, cipher units of files ------------------------------------- *)
+\* every width 1..64: agrees with HetHash where that is defined, and with an independent reading of
+\* "low w bits, top bit forced, NameHash1 = the 8 bits below the top" through the 64-bit shifts
+HetNames == {<<>>, <<97>>, <<65, 92, 98>>, <<40,97,116,116,114,105,98,117,116,101,115,41>>, <<100,97,116,97,47,120,46,109,50,45,45,45,45>>}
+HetWidthLaw == \A nm \in HetNames : LET full == HetFullHash(nm) IN \A w \in HetWidths :
+    LET h == HetOfFull(full, w) IN
+    /\ (w >= 8 => h.file = HetHash(nm, w).file /\ h.name1 = HetHash(nm, w).name1)
+    /\ (w >= 8 => h.name1 = L64Shr(h.limbs, IF w >= 64 THEN 56 ELSE w - 8)[0] % 256)
+    /\ (w >= 8 /\ w < 64 => h.name1 >= 128)
+    /\ (w < 64 => /\ L64Shr(h.limbs, w) = L64Zero
+                  /\ L64Shr(h.limbs, w - 1)[0] = 1
+                  /\ L64Shl(h.limbs, 65 - w) = L64Shl(full, 65 - w))
+    /\ (w = 64 => h.limbs = full)
+ASSUME HetWidthLaw
+
+\* extended-table bodies of every length 0..6 (all residues mod 4, 0..1 whole dwords): header in the clear,
+\* loading inverts storing, length kept, the trailing len mod 4 bytes in the clear
+TblHdr == <<72, 69, 84, 26, 1, 0, 0, 0, 9, 0, 0, 0>>
+TblKeys == {HetTableKey, BetTableKey, <<0, 0>>, <<0, 1>>, <<65535, 65535>>, <<4660, 22136>>}
+TblLaw == \A kk \in TblKeys : \A n \in 0..6 : \A body \in [1..n -> ByteVals] :
+    LET t == TblHdr \o body  st == TblStore(t, kk) IN
+    /\ TblLoad(st, kk) = t /\ Len(st) = Len(t) /\ SubSeq(st, 1, 12) = TblHdr
+    /\ TailBytes(SubSeq(st, 13, Len(st))) = TailBytes(body)
+    /\ (n >= 4 /\ kk # <<0, 0>> => SubSeq(st, 13, 16) # SubSeq(body, 1, 4))
+ASSUME TblLaw
+
+\* files of 0..20 bytes with 8-byte sectors (single unit, 2 and 3 sectors, every tail residue) under final keys
+\* that put the zero key on every possible unit (offset table, first, second, last sector) and on none:
+\* loading inverts storing; a zero unit is the only unit left in the clear
+FileKeysMC == {<<0, 0>>, <<0, 1>>, <<0, 2>>, <<65535, 65535>>, <<65535, 65534>>, <<65535, 65533>>, <<4660, 22136>>}
+FilePlain(n) == [i \in 1..n |-> (37 * i + n) % 256]
+FileLaw == \A kk \in FileKeysMC : \A n \in 0..20 :
+    LET p == FilePlain(n)  st == FileStoreRaw(p, kk, 8)  ns == FileSectorCount(n, 8) IN
+    /\ FileLoadRaw(st, kk, 8, n) = p
+    /\ Len(st) = (IF n <= 8 THEN n ELSE n + 4 * (ns + 1))
+    /\ (n > 8 => /\ FileOffsetsSane(FileLoadOffsets(st, kk, ns), ns, Len(st))
+                 /\ \A u \in -1..(ns - 1) :
+                      LET lo == IF u < 0 THEN 1 ELSE 4 * (ns + 1) + 8 * u + 1
+                          hi == IF u < 0 THEN 4 * (ns + 1) ELSE CxMin(4 * (ns + 1) + 8 * (u + 1), Len(st))
+                          clear == IF u < 0 THEN CxConcat([i \in 1..(ns + 1) |-> U32Bytes(FileOffsets([j \in 1..ns |-> Len(FileSector(p, 8, j - 1))])[i])])
+                                   ELSE FileSector(p, 8, u)
+                      IN  (hi - lo + 1 >= 4) => ((SubSeq(st, lo, hi) = clear) <=> (u \in FileZeroUnits(kk, ns))))
+ASSUME FileLaw
 ====
